@@ -230,7 +230,183 @@ func repeatByte(b byte, n int) []byte {
 var decodeTypes = []string{"Iface", "Small", "Tagged", "Big", "Nested", "Recursive", "WithIface", "WithBytes", "StrTag", "Ptrs", "Floats", "Ints", "IntKeys",
 	"SliceSmall", "MapStrSmall", "MapStrIface", "SliceIface", "WithUCB", "Embedded", "MutA", "SliceString", "MapStrSlice", "Wide", "CaseColl", "SliceSlice", "MapStrPtrSmall", "ArrSmall2"}
 
+// genBigFamily: "however large the document": documents of 4 KiB .. 1 MiB
+// (sizes around powers of two, where the stream buffer is doubled), delivered
+// in pieces whose sizes cycle through a short list.
+func genBigFamily(r *plan.Rng, quick bool) plan.StreamFamily {
+	maxExp := 20
+	if quick {
+		maxExp = 17
+	}
+	L := 1<<uint(r.Range(12, maxExp+1)) + r.Range(-40, 41)
+	if r.Chance(1, 3) {
+		L = r.Range(4096, 1<<uint(maxExp))
+	}
+	frag := func(k int) string {
+		switch k % 9 {
+		case 0:
+			return `\n`
+		case 1:
+			return `\u00e9`
+		case 2:
+			return "é"
+		case 3:
+			return `\ud83d\ude00`
+		case 4:
+			return "😀"
+		case 5:
+			return `\"`
+		case 6:
+			return `\\`
+		default:
+			return "abcdefghijklmnopqrstuvwxyz0123456789 "[k%37 : k%37+1]
+		}
+	}
+	longString := func(n int, dense bool) []byte {
+		out := make([]byte, 0, n+16)
+		out = append(out, '"')
+		step := r.Range(50, 3000)
+		if dense {
+			step = r.Range(1, 9)
+		}
+		for i := 0; len(out) < n; i++ {
+			if i%step == 0 {
+				out = append(out, frag(r.Intn(9))...)
+			} else {
+				out = append(out, byte('a'+i%26))
+			}
+		}
+		return append(out, '"')
+	}
+	elem := func(i int) string {
+		switch (i + r.Intn(3)) % 7 {
+		case 0:
+			return fmt.Sprintf("%d", i*7919)
+		case 1:
+			return fmt.Sprintf(`"s%d\t"`, i)
+		case 2:
+			return fmt.Sprintf(`{"A":%d,"B":"x%d"}`, i, i)
+		case 3:
+			return "null"
+		case 4:
+			return fmt.Sprintf("-%d.5e-%d", i, i%30)
+		case 5:
+			return "true"
+		default:
+			return fmt.Sprintf(`[%d,"é",false]`, i)
+		}
+	}
+	f := plan.StreamFamily{T: "Iface", Family: "chunks"}
+	var doc []byte
+	switch r.Intn(7) {
+	case 0: // one long string
+		doc = longString(L, r.Chance(1, 4))
+		if r.Bool() {
+			f.T = "String"
+		}
+	case 1: // a long array
+		doc = append(doc, '[')
+		for i := 0; len(doc) < L; i++ {
+			if i > 0 {
+				doc = append(doc, ',')
+			}
+			doc = append(doc, elem(i)...)
+		}
+		doc = append(doc, ']')
+		if r.Bool() {
+			f.T = "SliceIface"
+		}
+	case 2: // an object with many keys
+		doc = append(doc, '{')
+		for i := 0; len(doc) < L; i++ {
+			if i > 0 {
+				doc = append(doc, ',')
+			}
+			doc = append(doc, fmt.Sprintf(`"k%d\u00e9":`, i)...)
+			doc = append(doc, elem(i)...)
+		}
+		doc = append(doc, '}')
+		if r.Bool() {
+			f.T = "MapStrIface"
+		}
+	case 3: // a typed destination skipping a large unknown member, then a known one
+		t := decodeTypes[1+r.Intn(len(decodeTypes)-1)]
+		ti := lookupType(t)
+		inner := stdDoc(ti, int64(r.U64()>>8))
+		if len(inner) > 2 && inner[0] == '{' {
+			f.T = t
+			doc = append(doc, `{"unknown_member_`...)
+			doc = append(doc, longString(L/2, false)[1:]...)
+			doc = append(doc, `:[`...)
+			for i := 0; len(doc) < L; i++ {
+				if i > 0 {
+					doc = append(doc, ',')
+				}
+				doc = append(doc, elem(i)...)
+			}
+			doc = append(doc, `]`...)
+			if len(inner) > 2 {
+				doc = append(doc, ',')
+			}
+			doc = append(doc, inner[1:]...)
+		} else {
+			doc = longString(L, false)
+		}
+	case 4: // a long run of white space between tokens
+		doc = append(doc, `[1,`...)
+		doc = append(doc, repeatByte(' ', L)...)
+		doc = append(doc, `{"a":`...)
+		doc = append(doc, repeatByte(' ', L/3)...)
+		doc = append(doc, `2}]`...)
+	case 5: // many small documents in one stream
+		f.Parts = nil
+		tot := 0
+		for i := 0; tot < L && i < 4000; i++ {
+			e := elem(i)
+			f.Parts = append(f.Parts, bs(e))
+			f.Seps = append(f.Seps, bs(sepChoices[r.Intn(len(sepChoices))]))
+			tot += len(e) + 1
+		}
+	default: // a long string member inside a struct-typed destination
+		f.T = "WithIface"
+		doc = append(doc, `{"Pre":1,"X":`...)
+		doc = append(doc, longString(L, r.Chance(1, 4))...)
+		doc = append(doc, `,"Post":"tail","Y":[1,2]}`...)
+	}
+	if doc != nil {
+		f.Parts = [][]byte{doc}
+		if r.Bool() {
+			f.Seps = [][]byte{bs("\n")}
+		}
+	}
+	if r.Chance(1, 4) {
+		f.Pad = repeatByte(' ', r.Intn(700))
+	}
+	pow := func() int { return 1<<uint(r.Range(6, 21)) + r.Range(-1, 2) }
+	switch r.Intn(6) {
+	case 0:
+		f.Cuts = []int{pow()}
+	case 1:
+		f.Cuts = []int{pow(), r.Range(1, 5)}
+	case 2:
+		f.Cuts = []int{r.Range(64, 100000), r.Range(64, 5000), pow()}
+	case 3:
+		f.Cuts = []int{511 + r.Intn(3)}
+	case 4:
+		f.Cuts = []int{L/2 + r.Range(-2, 3), 1, 1, 1}
+	default:
+		f.Cuts = []int{r.Range(200, 9000)}
+	}
+	if r.Chance(1, 8) {
+		f.Flags = append(f.Flags, "usenumber")
+	}
+	return f
+}
+
 func genRandomFamily(r *plan.Rng, quick bool) plan.StreamFamily {
+	if (quick && r.Chance(1, 40)) || (!quick && r.Chance(1, 16)) {
+		return genBigFamily(r, quick)
+	}
 	nparts := 1
 	if r.Chance(1, 2) {
 		nparts = r.Range(2, 6)
